@@ -53,6 +53,11 @@ def check(run):
             run.rule(r_, 'as in C12: structure of vrank (a null inserted into the series changes no rank of a '
                          'valid element: every divisor of the pct arm is the valid count)')
         C12.rank(run, F)
+        # a null never displaces a valid rolling extreme: every comparison that touches the cached
+        # extreme (incoming element and rescan) is the null-last comparator in the kernel's direction
+        import C03
+        C03.extrema_rules(run)
+        C03.extrema(run, {k.name: k for k in find_kernels(F) if k.fn.file.endswith('cmp.rs')})
         # nulls never enter a rolling accumulator; two-series kernels delete pairwise
         for k in find_kernels(F):
             if not k.custom:
